@@ -53,7 +53,7 @@ def nest(stmt, depth, rnd):
 
 
 CONTEXTS = ["ssbs_arg", "exps_arg", "exps_inline_ctx", "case_menu", "msg_case_text", "msg_default_text", "dungeon_mode_set",
-            "dungeon_mode_case", "flag_value", "with_block_arg"]
+            "dungeon_mode_case", "flag_value", "with_block_arg", "case_menu2", "case_value", "case_plain", "if_value"]
 
 
 def template(ctx, depth, rnd):
@@ -81,6 +81,20 @@ def template(ctx, depth, rnd):
         body = nest([sw], depth, rnd)
     elif ctx == "flag_value":
         body = nest([("asg", ("flag_Set", (("const", "$A"), ("int", 4242))))], depth, rnd)
+    elif ctx == "case_menu2":
+        sw = ("switch", ("message_SwitchMenu2", (("int", 1), ("int", 2))),
+              [(("case", ("CaseMenu2", (("int", 4242),))), [("op", "c1", [], None), ("ctrl", "break")]), (("default",), [("op", "c2", [], None)])])
+        body = nest([sw], depth, rnd)
+    elif ctx == "case_value":
+        sw = ("switch", ("Switch", (("const", "$V"),)),
+              [(("case", ("CaseValue", (("int", 3), ("int", 4242)))), [("op", "c1", [], None), ("ctrl", "break")]), (("default",), [("op", "c2", [], None)])])
+        body = nest([sw], depth, rnd)
+    elif ctx == "case_plain":
+        sw = ("switch", ("SwitchRandom", (("int", 9),)),
+              [(("case", ("Case", (("int", 4242),))), [("op", "c1", [], None), ("ctrl", "break")]), (("default",), [("op", "c2", [], None)])])
+        body = nest([sw], depth, rnd)
+    elif ctx == "if_value":
+        body = nest([("if", [(False, [("Branch", (("const", "$A"), ("int", 4242)))], [("op", "c1", [], None)])], None)], depth, rnd)
     else:
         raise ValueError(ctx)
     body = body + [("ctrl", "end")]
@@ -111,6 +125,18 @@ def plant(ctx, ops, values, rnd):
             elif ctx == "dungeon_mode_case" and n == "Case" and op.params[0] == 4242:
                 op.params[0] = norm.to_param(values[0])
                 planted.append((op.offset, 0))
+            elif ctx == "case_menu2" and n == "CaseMenu2" and op.params[0] == 4242:
+                op.params[0] = norm.to_param(values[0])
+                planted.append((op.offset, 0))
+            elif ctx == "case_value" and n == "CaseValue" and op.params[1] == 4242:
+                op.params[1] = norm.to_param(values[0])
+                planted.append((op.offset, 1))
+            elif ctx == "case_plain" and n == "Case" and op.params[0] == 4242:
+                op.params[0] = norm.to_param(values[0])
+                planted.append((op.offset, 0))
+            elif ctx == "if_value" and n == "Branch" and op.params[1] == 4242:
+                op.params[1] = norm.to_param(values[0])
+                planted.append((op.offset, 1))
             elif ctx in ("flag_value", "with_block_arg") and n == "flag_Set":
                 op.params[1] = norm.to_param(values[0])
                 planted.append((op.offset, 1))
@@ -128,6 +154,9 @@ def values_for(ctx, rnd):
     if ctx in ("dungeon_mode_set", "dungeon_mode_case"):
         return [rnd.choice([("int", 0), ("int", 1), ("int", 2), ("int", 3), ("int", 4), ("int", 19), ("int", -1), ("const", "DMODE_OPEN"),
                             ("const", "SOME_CONST"), ("const", "$V")])]
+    if ctx in ("case_menu2", "case_value", "case_plain", "if_value"):
+        # headers take integer-like values: numbers (zero and negative ones included) and constants
+        return [rnd.choice([("int", 0), ("int", 0), ("int", 1), ("int", -1), ("int", 255), ("int", 32767), ("int", -16384), ("const", "CONST_A"), ("const", "$V")])]
     # parameters of flag_* operations are numbers, constants or fixed point values
     while True:
         v = gval_param(rnd, 1.0, allow_pos=False)
@@ -187,10 +216,11 @@ def value_roundtrip(acc, ctx, depth, values, rnd, sample=False):
         for oi, op in enumerate(r):
             n = op.op_code.name
             if n in names:
-                if n in ("Case", "CaseMenu"):
-                    # the planted header is the first case of the dungeon-mode / menu switch
+                if n in ("Case", "CaseMenu", "CaseMenu2", "CaseValue"):
+                    # the planted header is the first case of its switch
                     prev = r[oi - 1].op_code.name if oi else None
-                    if prev != {"Case": "SwitchDungeonMode", "CaseMenu": "message_SwitchMenu"}[n]:
+                    if prev not in {"Case": ("SwitchDungeonMode", "SwitchRandom"), "CaseMenu": ("message_SwitchMenu",),
+                                    "CaseMenu2": ("message_SwitchMenu2",), "CaseValue": ("Switch",)}[n]:
                         continue
                 for (wn, i) in want:
                     if wn == n and i < len(op.params):
